@@ -243,6 +243,10 @@ func grGen(t *rapid.T, version string, minEvents, maxEvents int) *grRoom {
 type grOpts struct {
 	Merges  bool // allow merge events (state-before by the reference resolver)
 	PLHeavy bool // mostly power-level changes and plain state events, many forks, everyone joined
+	// OddShapes: unusual but legal shapes — an event listing its prev event twice; power-levels /
+	// join-rules typed state events under a NON-empty state key (ordinary state, not the room's levels
+	// or rule: they neither are control events nor fill the resolver's power-levels / join-rules slot)
+	OddShapes bool
 }
 
 func grGenWith(t *rapid.T, version string, minEvents, maxEvents int, opts grOpts) *grRoom {
@@ -289,7 +293,7 @@ func grGenWith(t *rapid.T, version string, minEvents, maxEvents int, opts grOpts
 		st := r.Events[parent].State
 		actor := rapid.SampledFrom(grUsers).Draw(t, "actor")
 		target := rapid.SampledFrom(grUsers[1:]).Draw(t, "target")
-		tsDelta := int64(rapid.SampledFrom([]int{0, 0, 1, 1, 5}).Draw(t, "ts"))
+		tsDelta := int64(rapid.SampledFrom([]int{0, 0, 1, 1, 5, -2, -15}).Draw(t, "ts")) // (negative: a server whose clock is behind)
 		idHint := rapid.IntRange(0, 9).Draw(t, "idHint")
 		var typ string
 		var sk *string
@@ -349,6 +353,18 @@ func grGenWith(t *rapid.T, version string, minEvents, maxEvents int, opts grOpts
 		default:
 			typ, sk, content = "org.example.state", raSK(rapid.SampledFrom([]string{"", "k1", actor}).Draw(t, "csk")), jobj("v", jnum(int64(rapid.IntRange(0, 9).Draw(t, "cv"))))
 		}
+		if opts.OddShapes && rapid.IntRange(0, 7).Draw(t, "oddTyped") == 0 {
+			osk := rapid.SampledFrom([]string{"backup", actor, "x"}).Draw(t, "oddSK")
+			if rapid.Bool().Draw(t, "oddPL") {
+				cur := jobj("users", jv{K: 'o'})
+				if i, ok := st[grKey("m.room.power_levels", "")]; ok {
+					cur, _ = r.Events[i].Tree.get("content")
+				}
+				typ, sk, content = "m.room.power_levels", raSK(osk), cur
+			} else {
+				typ, sk, content = "m.room.join_rules", raSK(osk), jobj("join_rule", jstr(rapid.SampledFrom([]string{"public", "invite"}).Draw(t, "oddJR")))
+			}
+		}
 		var e *grEvent
 		if leaves := r.leaves(); opts.Merges && len(leaves) >= 2 && rapid.IntRange(0, 9).Draw(t, "merge") == 0 {
 			// merge two fork tips: the event's state-before is the reference resolution of both
@@ -360,7 +376,12 @@ func grGenWith(t *rapid.T, version string, minEvents, maxEvents int, opts grOpts
 			e = r.addMerge(leaves[i], leaves[j], typ, actor, sk, content, idHint)
 		}
 		if e == nil {
+			if opts.OddShapes && rapid.IntRange(0, 11).Draw(t, "dupPrev") == 0 {
+				// the event lists its prev event twice (legal remote input; means nothing to the rules)
+				r.mergePrev = []string{r.Events[parent].ID}
+			}
 			e = r.add(parent, typ, actor, sk, content, tsDelta, idHint)
+			r.mergePrev = nil
 		}
 		if e.Rejected && rapid.IntRange(0, 3).Draw(t, "keepRejected") > 0 {
 			// drop most rejected events so that histories stay mostly valid
@@ -416,7 +437,8 @@ type grCase struct {
 }
 
 func grGenCase(t *rapid.T, version string, minEvents, maxEvents int) grCase {
-	opts := grOpts{Merges: rapid.IntRange(0, 2).Draw(t, "allowMerges") > 0, PLHeavy: rapid.IntRange(0, 2).Draw(t, "plHeavyMode") == 0}
+	opts := grOpts{Merges: rapid.IntRange(0, 2).Draw(t, "allowMerges") > 0, PLHeavy: rapid.IntRange(0, 2).Draw(t, "plHeavyMode") == 0,
+		OddShapes: rapid.IntRange(0, 2).Draw(t, "oddShapes") == 0}
 	r := grGenWith(t, version, minEvents, maxEvents, opts)
 	c := grCase{Version: version}
 	for _, e := range r.Events {
